@@ -435,6 +435,10 @@ def origin_place(body, op):
 
 
 def resolve_place_str(body, pl, depth=8):
+    return expand_place(body, pl, depth)['s']
+
+
+def _old_resolve_place_str(body, pl, depth=8):
     """Render a place with its base temp expanded when the base is a single-def
     ref/copy of another place: (*_5).x with _5 = &mut (*_1).mixer -> (*_1).mixer.x"""
     s = pl['s']
@@ -466,3 +470,72 @@ def resolve_place_str(body, pl, depth=8):
             continue
         break
     return s
+
+
+def expand_place(body, pl, depth=8):
+    """Compose a place through temporaries that hold references or copies:
+    (*_4) with _4 = &mut (*_5), _5 = &mut (*_1).a.b  ->  (*_1).a.b   (projection lists are concatenated)."""
+    l = pl['l']
+    proj = list(pl['p'])
+    ty = pl.get('ty')
+    for _ in range(depth):
+        if 1 <= l <= body.arg_count:
+            break
+        d = body.single_def(l)
+        if not d or d[0] != 'stmt':
+            break
+        rv = d[3]['rv']
+        if rv['k'] in ('ref', 'rawptr') and proj and proj[0][0] == 'deref':
+            inner = rv['pl']
+            proj = list(inner['p']) + proj[1:]
+            l = inner['l']
+            continue
+        if rv['k'] == 'use' and is_place(rv['op']):
+            inner = rv['op']['pl']
+            proj = list(inner['p']) + proj
+            l = inner['l']
+            continue
+        if rv['k'] == 'cast' and is_place(rv['op']) and 'Unsize' not in rv.get('ck', '') and 'Transmute' not in rv.get('ck', ''):
+            inner = rv['op']['pl']
+            proj = list(inner['p']) + proj
+            l = inner['l']
+            continue
+        break
+    s = '_%d' % l
+    for pr in proj:
+        if pr[0] == 'deref':
+            s = '(*%s)' % s
+        elif pr[0] == 'field':
+            s = '%s.%s' % (s, pr[2])
+        elif pr[0] == 'downcast':
+            s = '(%s as %s)' % (s, pr[1])
+        elif pr[0] == 'index':
+            s = '%s[_%d]' % (s, pr[1])
+        elif pr[0] == 'cidx':
+            s = '%s[%s%d]' % (s, '-' if pr[2] else 'c', pr[1])
+        else:
+            s = '%s.<%s>' % (s, pr[0])
+    return {'l': l, 'p': proj, 's': s, 'ty': ty}
+
+
+def operand_place(body, op):
+    """The (expanded) place an operand denotes or points to: for `move _4` with
+    _4 = &mut X returns X; for `copy X.f` returns X.f.  None for constants."""
+    if not is_place(op):
+        return None
+    pl = op['pl']
+    if not pl['p']:
+        l = pl['l']
+        if 1 <= l <= body.arg_count:
+            return {'l': l, 'p': [], 's': '_%d' % l, 'ty': pl.get('ty')}
+        d = body.single_def(l)
+        if d and d[0] == 'stmt':
+            rv = d[3]['rv']
+            if rv['k'] in ('ref', 'rawptr'):
+                return expand_place(body, rv['pl'])
+            if rv['k'] == 'use' and is_place(rv['op']):
+                return operand_place(body, rv['op'])
+            if rv['k'] == 'cast' and is_place(rv['op']):
+                return operand_place(body, rv['op'])
+        return {'l': l, 'p': [], 's': '_%d' % l, 'ty': pl.get('ty')}
+    return expand_place(body, pl)
